@@ -261,12 +261,18 @@ pub fn run(ctx: &Ctx) -> Outcome {
     out.absorb(b);
     out.set("byte_offset_pass_complete", exhaustive_b.unwrap_or(json!(false)));
     out.set("rule", json!("X1 on T1 (real client <-> real server, strict wake-only executor). Deviations: at every transport call an injected write error / zero-length write / read error / EOF (in-flight octets lost) / non-HTTP/2 octets / shutdown Pending or error; at every poll of a connection the application dropping it instead; another runnable task first; in the byte-offset pass also partial writes and reads at structural offsets, so that the ending strikes inside a frame. Scenarios put every kind of wait in flight: response futures, body and trailer reads, capacity waits, reset waits, parked requests (readiness), accept, user ping, graceful and abrupt shutdown. For every execution with <= k deviations, at quiescence: (a) quiescence is reached (no livelock), (b) no application task is still waiting on a handle, (c) both connection futures have completed, (d) every message whose frames up to END_STREAM had all been handed to the receiving endpoint before the ending is delivered to its application completely and without error (skipped when the ending is a write-side fault at the receiving endpoint itself, where 'already received' is ambiguous)"));
+    // the user-ping handle across the end of the connection, every interleaving of the two threads (loom, real ping_pong.rs)
+    let pv = crate::c20::run_pingloom(&mut out, quick, "C07");
+    out.violations.extend(pv);
     out.assume("the applications keep polling their handles; a wait that the application itself abandons is not covered");
     out.assume("clause (d) only for endings whose position relative to frame processing is unambiguous (see rule)");
     out
 }
 
 pub fn replay_c07(v: &Value) -> bool {
+    if v["harness"].as_str() == Some("pingloom") {
+        return crate::c20::replay(v).unwrap_or(false);
+    }
     let name = v["scenario_name"].as_str().unwrap_or("");
     let scs = c07_scenarios(false);
     let mut v2 = v.clone();
